@@ -396,7 +396,6 @@ func runSoakInBubble(t *testing.T, in *SoakInput) (obs SoakObs) {
 		}
 		return n
 	}
-	interesting := map[uint64]bool{}
 	observe := func(op *Op) Row {
 		running := e.running()
 		r := Row{Running: running, Probes: []Probe{}}
@@ -410,8 +409,13 @@ func runSoakInBubble(t *testing.T, in *SoakInput) (obs SoakObs) {
 			uint64(messenger.VerifC20SlotDataRecordsLen()),
 			uint64(relay.VerifC20BuilderBidsCacheLen()),
 		}
-		// slots in play: named by this op, executing, or seen marked / scheduled before
+		// slots in play: named by this op, executing, and the current slot (a mark left anywhere
+		// else shows in the sizes: marks = jobs + executing)
+		interesting := map[uint64]bool{now: true}
 		for _, s := range op.Slots {
+			interesting[s] = true
+		}
+		for _, s := range running {
 			interesting[s] = true
 		}
 		switch op.K {
@@ -422,24 +426,13 @@ func runSoakInBubble(t *testing.T, in *SoakInput) (obs SoakObs) {
 				interesting[s] = true
 			}
 		}
-		interesting[now] = true
 		slots := make([]uint64, 0, len(interesting))
 		for s := range interesting {
 			slots = append(slots, s)
 		}
 		sort.Slice(slots, func(i, j int) bool { return slots[i] < slots[j] })
 		for _, s := range slots {
-			p := Probe{Slot: s, Has: ctrl.HasPendingAttestations(ctx, phase0.Slot(s)), Job: sched.JobExists(ctx, attJobName(s))}
-			r.Probes = append(r.Probes, p)
-			isRunning := false
-			for _, x := range running {
-				if x == s {
-					isRunning = true
-				}
-			}
-			if !p.Has && !p.Job && !isRunning && s+2*in.SPE < now {
-				delete(interesting, s) // long quiet: stop probing it
-			}
+			r.Probes = append(r.Probes, Probe{Slot: s, Has: ctrl.HasPendingAttestations(ctx, phase0.Slot(s)), Job: sched.JobExists(ctx, attJobName(s))})
 		}
 		return r
 	}
